@@ -1,5 +1,6 @@
 SPECIFICATION Spec
 CONSTANTS
+  FailingGov = FALSE
   MaxHeight = 3
   MaxTx = 6
   MaxFail = 1
